@@ -99,8 +99,12 @@ def judge(mode, value, result, ori, frame_cells, geo, others=None):
     elif mode == "AUTO":
         fit, orig = others["FIT"], others["ORIGINAL"]
         hx = oh * pr
-        fits_sure = ow <= fw and hx <= fh - F(1, 2)
-        nofit_sure = ow > fw or hx > fh + F(1, 2)
+        # (the half pixel is itself a rounding point: the library works in floats, the
+        # model in the exact rational value of those floats -- 5 * 0.9 is 4.5 in one and
+        # 4.5000000000000001 in the other; a millionth of a pixel absorbs that)
+        eps = F(1, 10**6)
+        fits_sure = ow <= fw and hx <= fh - F(1, 2) - eps
+        nofit_sure = ow > fw or hx > fh + F(1, 2) + eps
         if result not in (fit, orig):
             errs.append(("auto-neither-fit-nor-original", result, fit, orig))
         if fits_sure and result != orig:
